@@ -36,7 +36,7 @@ def required_buckets(tier):
         req.append(f'C05/conc/{nd}/')
     for k in ('solid', 'liquid', 'enzyme'):
         req.append(f'C05/conc/mol/L/{k}/' if k != 'enzyme' else 'C05/conc/U/L/enzyme/')
-    req += ['C05/infeasible/', 'C05/infeasible/solvent_container_short', 'C05/total/L', 'C05/total/g', 'C05/total/mol', 'C05/quantity/g/', 'C05/quantity/mol/',
+    req += ['C05/infeasible/', 'C05/infeasible/solvent_container_short', 'C05/regression/mole_concentration_of_an_enzyme', 'C05/total/L', 'C05/total/g', 'C05/total/mol', 'C05/quantity/g/', 'C05/quantity/mol/',
             'C05/quantity/L/', 'C05/quantity/U/']
     return req
 
@@ -50,14 +50,39 @@ def plan(tier, seed):
 
 def _plan(tier, seed):
     if tier == 'quick':
-        return shard('constructive', 1200, 12)
-    return shard('constructive', 40000, 32)
+        return shard('constructive', 1200, 12) + shard('regressions', 1, 1)
+    return shard('constructive', 40000, 32) + shard('regressions', 1, 1)
 
 
 def run_job(job):
     if job['kind'] == 'repo_suite':
         return run_cases(job, repo_suite)
+    if job['kind'] == 'regressions':
+        return run_cases(job, regressions)
     return run_cases(job, constructive)
+
+
+def regressions(rng, case, idx):
+    """Directed witnesses of repaired defects whose random trigger is rare (the sign of float noise)."""
+    import pyplate.pyplate as pp
+    from pv.gen import World
+    from pv.monitors import M
+    C, S = pp.Container, pp.Substance
+    w = World(rng, case)
+    w.check_aliasing = False
+    water = S.liquid('H2O', 18.0153, 1)
+    salt = S.solid('NaCl', 58.4428)
+    enz = S.enzyme('enz1', '29.4961 U/g')
+    liq2 = S.liquid('liq2', 11.0, 1.59)
+    with M.active(case):
+        solv = C('solv', initial_contents=[(liq2, '30.686277272727277 mol'), (water, '4.6031957 umol')])
+    M.bucket('C05/regression/mole_concentration_of_an_enzyme')
+    for solvent in (solv, liq2):
+        for conc in (['1.5 mol/mol'] * 3, ['0.2 mol/mol', '0.1 mol/mol', '0.5 mol/mol'], ['0.1 M', '0.2 M', '1 mol/L']):
+            # a concentration in moles cannot be met for an enzyme (it carries no moles): whatever the values, refuse
+            w.do('Container.create_solution', {'op': 'solution', 'solutes': ['H2O', 'NaCl', 'enz1'], 'kw': {'concentration': conc}},
+                 lambda: C.create_solution([water, salt, enz], solvent, concentration=conc, total_quantity='2913.894705909728 dg'),
+                 expect={'op': 'Container.create_solution', 'must': 'refuse', 'tag': 'mole_concentration_of_an_enzyme'})
 
 
 def constructive(rng, case, idx):
